@@ -4,7 +4,47 @@ import os
 
 VERIF = os.path.dirname(os.path.dirname(os.path.abspath(__file__)))
 
+RS_NOTE = ("Trusted / assumed: A-REAL (f64 treated as exact reals: the rounding envelope of the statement is NOT proved), "
+           "A-INT (counts < 2^53), A-LIB (to_f64, sqrt, powf(.,1.5), pow, unwrap, clone as assumed contracts), "
+           "own rsx + executor, sympy, z3 5.1 nlsat, Verus for the history lemma.")
+RS_TECH = "contract-based deductive verification: own VC generator over the real function bodies (syn AST), sympy normal forms + z3 QF_NRA; Verus history lemmas"
+
 CHECKS = {
+    "C01": dict(engine="RS+VL", technique=RS_TECH, design="6/C01", note=RS_NOTE,
+        text="rep(state, power sums) is preserved by Mean/Variance::add for an arbitrary symbolic summary (all n, all inputs) and every "
+             "accessor equals the textbook statistic or its sentinel; Verus lemma_fold lifts this to every sequence and order. Exact-real "
+             "semantics: a wrong coefficient, guard, n vs n-1 or update order fails a named obligation with a replayed input."),
+    "C02": dict(engine="RS+VL", technique=RS_TECH, design="6/C02", note=RS_NOTE,
+        text="merge of Mean, Variance, Skewness, Kurtosis and define_moments! orders 4,5,6 (thorough: 8,10): for symbolic summaries Pa, Pb in "
+             "all four emptiness cases the post-state represents Pa+Pb, len adds exactly, the argument is unchanged; Verus lemma_merge_tree "
+             "gives every chunking, empty chunk and bracketing without enumeration."),
+    "C03": dict(engine="RS+VL", technique=RS_TECH, design="6/C03", note=RS_NOTE + " A-REALIZABLE for the M2=0 shortcuts.",
+        text="Terriberry updates of Skewness/Kurtosis proved against M3/M4 of the enlarged summary; skewness()/kurtosis() and the "
+             "re-exported accessors proved against m3/m2^1.5, m4/m2^2-3 and the variance formulas (roots as r>=0, r^2=x)."),
+    "C04": dict(engine="RS+VL", technique=RS_TECH, design="6/C04", note=RS_NOTE + " Configurations: N in {4,5,6} quick, +{8,10} thorough.",
+        text="define_moments! instantiated mechanically per order N; add proved against M_p of the enlarged summary for p=2..N, "
+             "central_moment/standardized_moment for every p<=N, IterBinomial exact; complete per N (loop bounds are the macro parameter)."),
+    "C06": dict(engine="K", technique="Kani proof harnesses on the real crate (symbolic valid edges, every f64 sample), unwinding assertions on", design="6/C06",
+        text="find/add against the half-open-bin contract for fully symbolic valid edge vectors (infinite, repeated edges) and every f64 sample "
+             "including NaN; frame over the whole count array; complete per LEN in {1,2,3,4} (thorough: 10, 100 for find, const-generic copy).",
+        note="Trusted: CBMC IEEE-754 comparisons, Kani's compilation of core::slice::binary_search_by; counts < 2^40; per-LEN configuration list."),
+    "C08": dict(engine="RS+VL", technique=RS_TECH, design="6/C08", note=RS_NOTE + " requires weights >= 0.",
+        text="rep of (n,S1,S2,W,W2,WX) preserved by WeightedMean/WeightedMeanWithError add and merge in every emptiness-by-weight case "
+             "(zero weight first included), no division by zero, all accessors against the weighted formulas."),
+    "C09": dict(engine="RS+VL", technique=RS_TECH, design="6/C09", note=RS_NOTE,
+        text="rep of (n,Sx,Sy,Sxx,Syy,Sxy) preserved by Covariance::add/merge; accessors against the textbook statistics; "
+             "Cauchy-Schwarz proved as an inductive invariant so |pearson|<=1."),
+    "C10": dict(engine="RS", technique=RS_TECH, design="6/C10", note=RS_NOTE + " A-REALIZABLE.",
+        text="every bias-corrected accessor (sample_variance, variance_of_mean, error, sample_skewness, sample_excess_kurtosis) against its "
+             "textbook definition for symbolic n at/above the minimum sample size, sentinels below; powf domain obligation catches NaN on negative skew."),
+    "C12": dict(engine="K", technique="Kani proof harness against an oracle written from the statement; all input lists, all f64 bit patterns", design="6/C12",
+        text="from_ranges compared with an in-harness oracle (first offending position, error kind, ranges identity, zero counts) for LEN+3 symbolic "
+             "f64 and symbolic length; with_const_width: edges non-decreasing, first == start, bit-precise. Complete per LEN.",
+        note="Trusted: CBMC float model; LEN in {1..4} (const width: {1,2} quick, {3,4} thorough); 'within a few ulps' of edge i is not proved bit-precisely."),
+    "C13": dict(engine="K+VL", technique="Kani proof harnesses (state-level bin-wise contracts), structural dominance check on the syn AST, Verus merge-tree lemma", design="6/C13",
+        text="merge/+= bin-wise sum with edges kept and agreement, commutativity, empty identity, reset, *=, mismatch => the call does not return "
+             "(post-call cover unreachable), iteration order/length; no-mutation-on-mismatch by 'asserts dominate writes' on the real AST.",
+        note="Trusted: CBMC; counts < 2^40, multiplier < 2^20; float-valued views are decided under exact reals (not yet: see evidence), LEN list per tier."),
     "C14": dict(
         engine="K+VL",
         technique="Kani function contracts (proof_for_contract / stub_verified) on the real crate, full f64 domain; Verus history lemma",
